@@ -6,14 +6,21 @@ Require Import QV.C16.Model.
 Import ListNotations.
 Open Scope Z_scope.
 
-(* waveform references in the order in which the source program plays them (repetitions expanded) *)
+(* waveform references in the order in which the source program plays them (repetitions expanded): a node plays its
+   own waveform (leaves) followed by its children, repetition_count times *)
+Definition wpart (w : option nat) : list nat := match w with Some i => [i] | None => [] end.
+
 Fixpoint flatten (l : loop) : list nat :=
   match l with
+  | Loop r _ w ch => rep_concat r (wpart w ++ concat (map flatten ch))
+  end.
+
+(* the input domain: repetition counts are not negative, a node with children carries no waveform of its own *)
+Fixpoint good (l : loop) : bool :=
+  match l with
   | Loop r _ w ch =>
-      rep_concat r (match ch with
-                    | [] => match w with Some i => [i] | None => [] end
-                    | _ => concat (map flatten ch)
-                    end)
+      (0 <=? r) && (match ch with [] => true | _ => match w with None => true | Some _ => false end end)
+      && forallb good ch
   end.
 
 Definition opt_bind {A B} (o : option A) (f : A -> option B) : option B :=
